@@ -9,6 +9,7 @@ import itertools
 import socket
 
 import seqrun as S
+import simnet
 import world as W
 from framework import Result, drive
 from props import c05
@@ -232,6 +233,59 @@ def _run_pipelined(ctx):
     return res
 
 
+async def _refused_user_case(loop, second):
+    """another session holds the only slot of password-protected alice; this one is refused at USER (530): whatever it
+    sends next, it is not logged in and nothing is served"""
+    users = [W.UserSpec("alice", "secret", home="/", max_conn=1), W.UserSpec("bob", None, home="/")]
+    wd = W.World(loop, users)
+    await wd.start()
+    try:
+        wd.set_tree(S.TREE)
+        a = await wd.raw_client()
+        await W.run_line(wd, a, b"USER alice")
+        await W.run_line(wd, a, b"PASS secret")
+        b = await wd.raw_client()
+        out = []
+        spy0 = wd.spy.n
+        for line in second:
+            if b.eof:
+                break
+            codes, _, _, _ = await W.run_line(wd, b, line.encode())
+            out.append(codes)
+        conn = wd.connection_of(b)
+        logged = bool(conn is not None and wd._get(conn, "logged")[0] and wd._get(conn, "logged")[1])
+        res = {"replies": out, "logged": logged, "backend_calls": wd.spy.n - spy0, "tree_has_zz": "zz" in wd.tree()}
+        a.close()
+        b.close()
+        await loop.settle()
+    finally:
+        try:
+            await wd.stop()
+        except Exception:
+            wd.finish()
+    return res
+
+
+def _refused_user(ctx):
+    res = Result()
+    for second in (["USER alice", "PASS secret", "PWD", "MKD zz"], ["USER alice", "PASS secret", "EPSV"], ["USER alice", "PWD"], ["USER bob", "USER alice", "PASS secret", "PWD"],
+                   ["USER alice", "USER alice", "PASS secret", "MKD zz"]):
+        res.cases += 1
+        res.count("refused_user")
+        res.distinct.add(("refused-user", tuple(second)))
+        try:
+            o = simnet.run(_refused_user_case, second)
+        except BaseException as e:  # noqa
+            res.disagreements.append({"correspondence": "C03 refused-user harness", "input": second, "impl": "%s: %s" % (type(e).__name__, e)})
+            continue
+        # after the refused USER alice nothing may be served until a USER that is accepted
+        k = max(i for i, l in enumerate(second) if l == "USER alice")
+        after = o["replies"][k + 1 :]
+        if o["replies"][k] != [530] or any(c and c[0] in (230, 257, 229, 227) for c in after) or o["logged"] or o["tree_has_zz"]:
+            res.oracle_failures.append({"input": {"kind": "refused-user", "second_session": second}, "what": "alice's only slot is held by another session; this session sent %r and got %r (logged in: %s, tree changed: %s)" % (second, o["replies"], o["logged"], o["tree_has_zz"]), "signature": "C03:served-after-refused-user"})
+    return res
+
+
 def _late(ctx):
     """a transfer accepted under one login, a USER for another login, and only then the data connection"""
     from props import late_common as LC
@@ -293,6 +347,7 @@ def correspondence(ctx):
     r = _run(ctx, gen(ctx))
     r.merge(_run_pipelined(ctx))
     r.merge(_late(ctx))
+    r.merge(_refused_user(ctx))
     r.merge(_lockstep(ctx))
     return r
 
@@ -306,12 +361,18 @@ def search(ctx, prior):
     r = _run(ctx, hist, compare=False)
     r.merge(_run_pipelined(ctx))
     r.merge(_late(ctx))
+    r.merge(_refused_user(ctx))
     r.merge(_lockstep(ctx))
     return r
 
 
 def replay(ctx, doc):
     inp = doc["failure"]["input"]
+    if inp.get("kind") == "refused-user":
+        o = simnet.run(_refused_user_case, inp["second_session"])
+        print(o)
+        k = max(i for i, l in enumerate(inp["second_session"]) if l == "USER alice")
+        return o["replies"][k] != [530] or any(c and c[0] in (230, 257, 229, 227) for c in o["replies"][k + 1 :]) or o["logged"] or o["tree_has_zz"]
     if "late_plan" in inp:
         import latewire as LW
         from props import late_common as LC
